@@ -476,6 +476,13 @@ def exC : Cols := .nest [.leaf [8, 16], .nest [.leaf [9, 17], .leaf [10, 18]], .
 def exE : Cols := .nest [.leaf [24], .nest [.leaf [25], .leaf [26]], .leaf [27]]
 example : exC.lock 2 ∧ exE.lock 1 ∧ exC.same exE := by
   simp [exC, exE, Cols.lock, Cols.same, Cols.same.sameL]
+
+/- `retain_mut` with a writing callback on the same container: the second call overwrites leaf 2 of the element it is shown
+   with 99 and keeps it, the first element is rejected — on the field arrays and on the array of structs alike -/
+example : (Model.retain false exC (fun i => i != 0) none (fun k _ => if k = 1 then some (2, 99) else none)).st.rows.map Elem.ids =
+    (Spec.retain false exC.rows (fun i => i != 0) none (fun k _ => if k = 1 then some (2, 99) else none)).st.map Elem.ids ∧
+    (Model.retain false exC (fun i => i != 0) none (fun k _ => if k = 1 then some (2, 99) else none)).st.flat = [16, 17, 99, 19] := by
+  decide
 example : (Model.insert false exC 1 exE).st.rows = (Spec.insert false exC.rows 1 exE.rows).st :=
   (insert false 1 (n := 2) (by simp [exC, Cols.lock]) (by simp [exE, Cols.lock])
     (by simp [exC, exE, Cols.same, Cols.same.sameL])).st
